@@ -138,7 +138,7 @@ def encKind (f : FieldDef) (bits : Nat) : EncKind :=
     match f.enum with
     | some e => .lookup e
     | none => .unrecognised "database entry lacks LookupEnumeration"
-  else if t = "DATE" then .date
+  else if t = "DATE" then .date bits
   else if t = "TIME" ∨ t = "DURATION" then
     match f.resolution with
     | some r => .time r bits f.signed
